@@ -328,3 +328,16 @@ def set_keyword(relpath: str, defpath: str, call_contains: str, kw: str, new_val
         return False
 
     return edit(relpath, defpath, fn)
+
+
+def insert_before_function(relpath: str, defname: str, new_src: str):
+    """Insert module-level statements (e.g. a new helper definition) in front of the top-level definition `defname`."""
+
+    def fn(node, tree):
+        for i, st in enumerate(tree.body):
+            if isinstance(st, (ast.FunctionDef, ast.ClassDef)) and st.name == defname:
+                tree.body[i:i] = parse_stmts(new_src)
+                return True
+        return False
+
+    return edit(relpath, None, fn)
